@@ -215,6 +215,10 @@ def main(argv):
         else:
             undecided.append('failing obligation %s is not in the baseline' % fl.obligation)
 
+    # every listed (unrepaired) finding of this property is printed; the ones tied to an obligation also suppress exactly it
+    for kf in known:
+        if kf.get('status') == 'known' and kf.get('property') == pid and kf['id'] not in [k['id'] for k in known_printed]:
+            known_printed.append(kf)
     for kf in known_printed:
         print('KNOWN-FINDING: property=%s %s' % (pid, kf['text']))
 
